@@ -277,14 +277,22 @@ def check_digest_consumes_rules(ck, R):
     okh = len(ups) == 1
     if okh:
         g = fa.enclosing(ups[0], ast.If)
-        okh = g is not None and A.norm(g.test) in ("hash_code is not None", "rule.rule_hash is not None") and fa.inside(g, lp.ast)
+        lv = lp.ast.target.id if isinstance(lp.ast.target, ast.Name) else None
+        # fields of the loop variable assigned, inside the loop, from compute_hash()
+        hash_fields = {A.norm(s.targets[0]) for s in A.walk_local(lp.ast)
+                       if isinstance(s, ast.Assign) and len(s.targets) == 1 and isinstance(s.targets[0], ast.Attribute)
+                       and isinstance(s.targets[0].value, ast.Name) and s.targets[0].value.id == lv
+                       and "call:compute_hash" in fa.deps(s.value)}
+
+        def is_hash(e):
+            return "call:compute_hash" in fa.deps(e) or any(A.norm(x) in hash_fields for x in ast.walk(e) if isinstance(x, ast.Attribute))
+
+        t = g.test if g is not None else None
+        okh = t is not None and isinstance(t, ast.Compare) and len(t.ops) == 1 and isinstance(t.ops[0], ast.IsNot) \
+            and A.norm(t.comparators[0]) == "None" and is_hash(t.left) and fa.inside(g, lp.ast)
         inner_ifs = [i for i in A.walk_local(lp.ast) if isinstance(i, ast.If)]
         okh = okh and len(inner_ifs) == 1 and not any(isinstance(s, (ast.Continue, ast.Break)) for s in A.walk_local(lp.ast))
-        ud = fa.deps(ups[0].args[0])
-        via_field = "rule.rule_hash" in A.norm(ups[0].args[0]) and any(
-            isinstance(s, ast.Assign) and A.norm(s.targets[0]) == "rule.rule_hash" and "call:compute_hash" in fa.deps(s.value)
-            for s in A.walk_local(lp.ast))
-        okh = okh and ("call:compute_hash" in ud or via_field)
+        okh = okh and is_hash(ups[0].args[0])
     ck.ob(R, fa.key(lp.ast, "only-none-filter"), okh, "every non-None rule hash updates the digest" if okh else
           "a rule's hash can be skipped for a reason other than being None (or the digest is fed something else)", fa.where(lp.ast))
     # the fold is injective: pieces are concatenated into one digest, so either every piece has a
